@@ -492,6 +492,31 @@ pub fn run(ctx: &Ctx) {
             }
         }
     });
+    // demonstration of KF-C07-5 (names of 127 / 128 characters are not in the generators' pool)
+    {
+        let mut st = Stats::new();
+        st.eval();
+        let long = format!("L{}", "2345678901".repeat(13))[..127].to_string();
+        let m = AutosarModel::new();
+        let r = (|| -> Result<Option<String>, AutosarDataError> {
+            let f = m.create_file("long.arxml", AutosarVersion::Autosar_00050)?;
+            let pk = m.root_element().create_sub_element(ElementName::ArPackages)?;
+            let p1 = pk.create_named_sub_element(ElementName::ArPackage, &long)?;
+            let copy = pk.create_copied_sub_element(&p1)?;
+            let name = copy.item_name().unwrap_or_default();
+            let text = f.serialize()?;
+            let m2 = AutosarModel::new();
+            let warns = match m2.load_buffer(text.as_bytes(), "r.arxml", false) {
+                Ok((_, w)) => w.len(),
+                Err(_) => usize::MAX,
+            };
+            Ok(if name.len() > 128 && warns > 0 { Some(format!("the copy is named with {} characters; reloading the written file gives {} complaint(s)", name.len(), if warns == usize::MAX { "a rejection and".to_string() } else { warns.to_string() })) } else { None })
+        })();
+        if let Ok(Some(d)) = r {
+            ctx.report(Failure::new("copy:unique-name-longer-than-128", format!("create_copied_sub_element of an AR-PACKAGE with a 127-character name next to the original: {d}"), json!({"kind": "demonstration", "finding": "KF-C07-5"})));
+        }
+        ctx.merge(st);
+    }
     // (b)
     let known_open = |sig: &str| ctx.is_known_open(sig);
     let n = ctx.tier.pick(20_000u64, 200_000u64);
